@@ -185,6 +185,24 @@ def check(run: Run) -> None:
         for g_ in u_:
             if g_ is not F and all(any(c_ is x for x in u_) for c_, _call, _sk in call_sites_of(m, g_)):
                 inherited[g_.qual] = why_ + f" (moved out of {F.name})"
+    def _judge_assert(fa, fi, n):
+        """why the assert cannot fail for a valid expression (None when no reason is known)"""
+        t = n.test
+        kind_inv = isinstance(t, ast.Call) and isinstance(t.func, ast.Name) and t.func.id == "isinstance" and len(t.args) == 2 and ast.unparse(t.args[1]).startswith("ast.") and isinstance(t.args[0], (ast.Name, ast.Attribute))
+        if kind_inv:
+            st = strip_sites(fa.term_of(t.args[0])) if fa.cfg.has_node(t) else ("top", "?")
+            # the asserted value is the result of visiting / a callback / a constructor: internal invariant
+            if st[0] in ("gvisit", "visit", "tvisit", "new", "app", "index", "phi", "attr", "upd", "ifexp"):
+                return "node-kind invariant of an internal value"
+            # already established on every path to the assert (e.g. by the guard at the helper's only call site): cannot fail
+            cls_names = {Facts(fa, n)._cls_name(c_) for c_ in (t.args[1].elts if isinstance(t.args[1], ast.Tuple) else [t.args[1]])}
+            if Facts(fa, n).isinstance_of(st, cls_names):
+                return "already known where it is made"
+        wl = ASSERT_WHITELIST.get(fi.qual) or _BY_PATH.get(fi.qual.split(":")[1]) or inherited.get(fi.qual)
+        if wl is None and isinstance(t, ast.Compare) and len(t.ops) == 1 and isinstance(t.ops[0], ast.IsNot) and isinstance(t.comparators[0], ast.Constant) and t.comparators[0].value is None and isinstance(t.left, ast.Attribute) and isinstance(t.left.value, ast.Name) and fi.cls is not None and fi.pos_params and t.left.value.id == fi.pos_params[0]:
+            wl = "bookkeeping invariant of the object's own state (self.<attr> is not None)"
+        return f"enumerated: {wl}" if wl is not None else None
+
     for fi in sorted(reach, key=lambda f: f.qual):
         fa = None
         for n in own_nodes(fi):
@@ -206,26 +224,37 @@ def check(run: Run) -> None:
                 run.check(nm == "ValueError" or wl is not None, "C10.R4", fi, n, f"raise {nm}" + (f" (enumerated: {wl})" if wl else " is a designed ValueError"), f"{fi.qual.split(':')[1]} raises {nm} on the operators' lambda pipeline: refusals must be ValueError", "ValueError")
             elif isinstance(n, ast.Assert):
                 n_assert += 1
+                fa = fa or ctx.analysis(fi)
+                why = _judge_assert(fa, fi, n)
+                if why is None and fi.is_private:
+                    # a private checking helper (assert isinstance(node, kind); return node): judged where it is used -
+                    # in the view of each caller, which has the helper's statements in place of the call
+                    from ..lib import view as _view4
+
+                    sites_ = call_sites_of(m, fi)
+                    ok_sites = bool(sites_)
+                    for caller_, _call, _sk in sites_:
+                        cv = _view4(m, caller_)
+                        if cv is caller_ or any(isinstance(c_.func, (ast.Name, ast.Attribute)) and (c_.func.id if isinstance(c_.func, ast.Name) else c_.func.attr) == fi.name for c_ in calls_in(cv)):
+                            ok_sites = False
+                            break
+                        had = [ast.unparse(x_) for x_ in own_nodes(caller_) if isinstance(x_, ast.Assert)]
+                        cfa = ctx.analysis(cv)
+                        for x_ in own_nodes(cv):
+                            if isinstance(x_, ast.Assert):
+                                if ast.unparse(x_) in had:
+                                    had.remove(ast.unparse(x_))
+                                    continue
+                                if _judge_assert(cfa, cv, x_) is None:
+                                    ok_sites = False
+                    if ok_sites:
+                        why = f"checking helper, judged at its {len(sites_)} call sites"
                 t = n.test
-                kind_inv = isinstance(t, ast.Call) and isinstance(t.func, ast.Name) and t.func.id == "isinstance" and len(t.args) == 2 and ast.unparse(t.args[1]).startswith("ast.") and isinstance(t.args[0], (ast.Name, ast.Attribute))
-                if kind_inv:
-                    fa = fa or ctx.analysis(fi)
-                    st = strip_sites(fa.term_of(t.args[0])) if fa.cfg.has_node(t) else ("top", "?")
-                    # the asserted value is the result of visiting / a callback / a constructor: internal invariant
-                    internal = st[0] in ("gvisit", "visit", "tvisit", "new", "app", "index", "phi", "attr", "upd", "ifexp")
-                    if internal:
-                        run.ok("C10.R4", fi, f"assert {ast.unparse(t)[:60]}: node-kind invariant of an internal value")
-                        continue
-                    # already established on every path to the assert (e.g. by the guard at the helper's only call site): cannot fail
-                    cls_names = {Facts(fa, n)._cls_name(c_) for c_ in (t.args[1].elts if isinstance(t.args[1], ast.Tuple) else [t.args[1]])}
-                    if Facts(fa, n).isinstance_of(st, cls_names):
-                        run.ok("C10.R4", fi, f"assert {ast.unparse(t)[:60]}: already known where it is made")
-                        continue
-                wl = ASSERT_WHITELIST.get(fi.qual) or _BY_PATH.get(fi.qual.split(":")[1]) or inherited.get(fi.qual)
-                if wl is None and isinstance(t, ast.Compare) and len(t.ops) == 1 and isinstance(t.ops[0], ast.IsNot) and isinstance(t.comparators[0], ast.Constant) and t.comparators[0].value is None and isinstance(t.left, ast.Attribute) and isinstance(t.left.value, ast.Name) and fi.cls is not None and fi.pos_params and t.left.value.id == fi.pos_params[0]:
-                    wl = "bookkeeping invariant of the object's own state (self.<attr> is not None)"
-                run.check(wl is not None, "C10.R4", fi, n, f"assert {ast.unparse(t)[:50]} (enumerated: {wl})", f"assert {ast.unparse(t)[:80]} on the operators' lambda pipeline is not an enumerated internal invariant: a valid expression may end in AssertionError instead of a designed ValueError")
-    run.floor("C10.R4", n_raise, 25, "explicit raises on the pipeline")
+                run.check(why is not None, "C10.R4", fi, n, f"assert {ast.unparse(t)[:50]} ({why})", f"assert {ast.unparse(t)[:80]} on the operators' lambda pipeline is not an enumerated internal invariant: a valid expression may end in AssertionError instead of a designed ValueError")
+    # an assert that moved into a private checking helper is made once per call of that helper
+    for g_ in reach:
+        if g_.is_private and any(isinstance(x_, ast.Assert) for x_ in own_nodes(g_)):
+            n_assert += max(0, sum(1 for c_, _call, _sk in call_sites_of(m, g_) if any(c_ is r_ for r_ in reach)) - 1)
     run.floor("C10.R4", n_assert, 15, "asserts on the pipeline")
     # no bare `except` that turns errors into something else than ValueError
     for fi in reach:
@@ -242,6 +271,9 @@ def check(run: Run) -> None:
     vs = tt.methods.get("visit_Subscript")
     if vs is None:
         raise AnalysisError("anchor vanished: type_transformer.visit_Subscript")
+    from ..lib import view as _view6
+
+    vs = _view6(m, vs)  # the refusals may sit in private _require_ / _check_ helpers
     fvs = ctx.analysis(vs)
     V = ("gvisit", ("param", vs.pos_params[1]))
     n_r = 0
